@@ -62,14 +62,15 @@ func frameRecv(body, fn string) string {
 	return m[1]
 }
 
-// parked: the goroutine waits for an external event inside one of the blocking calls the session loops make
+// parked: the goroutine waits for an external event.  It is recognised by the runtime's wait reason alone (the
+// caller has already identified the goroutine by its top-level frame - loopSend, loopReceive, the harness's own peer
+// functions), never by the name of the queue / connection method it happens to wait in: any correct implementation
+// parks its send loop waiting for work (condition variable, channel, select) and its receive loop in a read
+// (netpoll, net.Pipe's select).  Transient states - running, runnable, waiting for a mutex or a Once, sleeping - are
+// not parked.
 func parkedState(g gInfo) bool {
 	switch g.state {
-	case "sync.Cond.Wait":
-		return strings.Contains(g.body, "pipe/q.(*Q).pop(")
-	case "select":
-		return strings.Contains(g.body, "net.(*pipe).read(") || strings.Contains(g.body, "net.(*pipe).write(")
-	case "IO wait":
+	case "sync.Cond.Wait", "select", "IO wait", "chan receive", "chan receive (nil chan)", "select (no cases)":
 		return true
 	}
 	return false
